@@ -11,7 +11,7 @@ EXPLANATION = ('Symbolic execution of the real formatter with the WHOLE Formatte
                'integers, indent width chosen): "all combinations of options" is one symbolic configuration that forks only where the formatter consults it. Input programs '
                'are a corpus of nasty shapes (comments in argument lists, continuations, trailing commas, multi-line strings, files() arrays) plus templates with symbolic '
                'string bodies. Checked: parse-equivalence of output and input (decoded string values solver-compared), comments preserved in order, idempotence.')
-ASSUMPTIONS = ['end_of_line=lf, indent_before_comments one space, use_editor_config off (editorconfig discovery is file I/O)', 'max_line_length 0..40, tab_width 1..8, indent 1-3 spaces',
+ASSUMPTIONS = ['end_of_line=lf, indent_before_comments one space, use_editor_config off (editorconfig discovery is file I/O)', 'max_line_length 0..40, tab_width 1..8, indent_by: empty | 1 space | 4 spaces | tab',
                'programs: the listed corpus and templates; string bodies <= 2 characters over {a, quote, backslash, n, newline, @}']
 OUT = 'editorconfig discovery and match_path, recursive/in-place file handling, --check-only exit code plumbing, programs beyond the corpus/templates, non-ASCII'
 MANIFEST = dict(
@@ -104,7 +104,7 @@ def mk_config(narrow=False):
                                   simplify_string_literals=sym_bool('simplify_string_literals'), sort_files=sym_bool('sort_files'), use_editor_config=False)
     return MF.FormatterConfig(
         max_line_length=sym_int('max_line_length', 0, 40),
-        indent_by=' ' * (1 + choose(3, 'indent')),
+        indent_by=['', ' ', '    ', '\t'][choose(4, 'indent')],
         space_array=sym_bool('space_array'), kwargs_force_multiline=sym_bool('kwargs_force_multiline'), wide_colon=sym_bool('wide_colon'),
         no_single_comma_function=sym_bool('no_single_comma_function'), end_of_line='lf', indent_before_comments=' ',
         simplify_string_literals=sym_bool('simplify_string_literals'), insert_final_newline=sym_bool('insert_final_newline'), tab_width=sym_int('tab_width', 1, 8),
